@@ -109,6 +109,14 @@ C12_Entropy(ev) ==
         /\ G!DocCost(MethodOfEv(ev), ev.cd).k # "reject") => Success(ev))
   /\ ((ev.fresh = 1 /\ ev.gprev > 0 /\ ev.gprev < l /\ IsGs(T[ev.gprev].e) /\ T[ev.gprev].fresh = 1 /\ Success(ev)
         /\ Success(T[ev.gprev]) /\ MethodOfEv(ev) # "nt") => ev.res # T[ev.gprev].res)
+\* too few caller-supplied bytes for any salt: EINVAL -- never a salt from somewhere else.  (With an acceptable count and
+\* the documented buffer the exact model can only fail with EINVAL for that reason.)
+A_TooShort(ev, m) ==
+  ev.rbnull = 0 /\ m # "none" /\ WellFormed(ev) /\ ev.nrbytes >= 0 /\ Size(ev) >= G!GENSALT_OUTPUT_SIZE
+  /\ G!DocCost(m, ev.cd).k # "reject" /\ LET mo == Model(ev) IN ~mo.ok /\ mo.err = G!EINVAL
+C12_TooShort(ev, m) == A_TooShort(ev, m) => (~Success(ev) /\ ev.errno = G!EINVAL)
+\* bytes the caller supplied are the only source: the OS is asked only when rbytes is NULL
+C12_NoAutoEntropy(ev) == ev.rbnull = 0 => ev.entcalls = 0
 \* ---- C13 ----------------------------------------------------------------
 C13_Local(ev) ==
   /\ ev.guard = 1
@@ -149,7 +157,7 @@ C14_RA(ev) == ev.e = "gensalt_ra" =>
 
 \* vacuity guard: how often the antecedent of each relational predicate held (cnt.ant; tools/props.py REQUIRED_ANTS)
 AntNames == {"Success", "Deterministic", "NullIsPreferred", "Flip", "EntropyFresh", "Monotone", "Full", "SmallSize", "CostReject",
-             "AutoEntropy", "NonzeroErrno", "GensaltRA"}
+             "AutoEntropy", "NonzeroErrno", "GensaltRA", "TooShort"}
 Ants(ev) ==
   LET m == MethodOfEv(ev) IN
   (IF Success(ev) THEN {"Success"} ELSE {}) \cup (IF A_Deterministic(ev) THEN {"Deterministic"} ELSE {})
@@ -161,6 +169,7 @@ Ants(ev) ==
   \cup (IF ev.rbnull = 1 /\ ev.entcalls >= 1 THEN {"AutoEntropy"} ELSE {})
   \cup (IF "ein" \in DOMAIN ev /\ ev.ein # 0 THEN {"NonzeroErrno"} ELSE {})
   \cup (IF ev.e = "gensalt_ra" THEN {"GensaltRA"} ELSE {})
+  \cup (IF WellFormed(ev) /\ A_TooShort(ev, m) THEN {"TooShort"} ELSE {})
 AddAnts(f, a) == [n \in AntNames |-> f[n] + (IF n \in a THEN 1 ELSE 0)]
 V(p, n) == [l |-> l, p |-> p, n |-> n]
 Chk(ok, p, n) == IF ok THEN {} ELSE {V(p, n)}
@@ -181,6 +190,7 @@ JudgeGs(ev) ==
      \cup Chk(C10_Deterministic(ev), "C10", "Deterministic") \cup Chk(C10_Where(ev), "C10", "Where")
      \cup Chk(C18_NullIsPreferred(ev), "C18", "NullIsPreferred")
      \cup Chk(C12_Flip(ev), "C12", "Flip") \cup Chk(C12_Entropy(ev), "C12", "Entropy")
+     \cup Chk(C12_TooShort(ev, m), "C12", "TooShort") \cup Chk(C12_NoAutoEntropy(ev), "C12", "NoAutoEntropy")
      \cup Chk(C13_Local(ev), "C13", "Local") \cup Chk(C13_Monotone(ev), "C13", "Monotone")
      \cup Chk(C13_Full(ev), "C13", "Full") \cup Chk(C13_Enough(ev), "C13", "Enough")
      \cup Chk(C04_Statics(ev), "C08", "Statics") \cup Chk(C14_RA(ev), "C14", "GensaltRA"),
